@@ -550,10 +550,24 @@ func (mf *modelFont) renderParts(r *rng) (*renderFont, renderLayout) {
 	if r.chance(1, 6) {
 		wantFirst = pick(r, []int{0x00, 0x0c, 0x0b, 0x85, 0xa0, '%', '(', 0x1c, 0x7f, 0xff})
 	}
+	// ... and every eighth: four chosen cipher bytes - a hex digit followed by hex digits and white space (legal for
+	// the binary form: not all four are hex digits, the first is not white space)
+	var wantAll []byte
+	if wantFirst < 0 && r.chance(1, 8) {
+		wantAll = []byte(pick(r, []string{"a\nbc", "7 2F", "DE\r1", "0\t00", "f  f", "A\n\nB", "9\r\n0", "c0 \t"}))
+	}
 	for {
 		l.IV = [4]byte{byte(r.intn(256)), byte(r.intn(256)), byte(r.intn(256)), byte(r.intn(256))}
 		if wantFirst >= 0 {
 			l.IV[0] = byte(wantFirst) ^ byte(55665>>8) // first cipher byte = plain ^ (R >> 8)
+		}
+		if wantAll != nil {
+			// decrypting the wanted cipher bytes gives the lead bytes to use
+			var R uint16 = 55665
+			for i, c := range wantAll {
+				l.IV[i] = c ^ byte(R>>8)
+				R = (uint16(c)+R)*52845 + 22719
+			}
 		}
 		// a legal prefix for binary eexec: the first cipher byte is not white space and
 		// the first four cipher bytes are not all hex digits
